@@ -21,6 +21,7 @@
 //verif:stub (github.com/golang-jwt/jwt/v4.MapClaims).Valid -> stubClaimsValid
 //verif:stub strings.HasPrefix -> stubHasPrefix
 //verif:stub strings.ToLower -> stubToLower
+//verif:stub strings.EqualFold -> stubEqualFold
 //verif:havocfield protected.Algorithm -> genAlg
 //verif:havocfield protected.ContentType -> genCty
 //verif:havocfield protected.SigningScheme -> genScheme
@@ -141,6 +142,13 @@ var specKeys = []string{"alg", "cty", "crit", "io.cncf.notary.expiry", "io.cncf.
 // genExtEntry: the map view of the same JSON object. Specified keys are present exactly when the struct view saw them
 // (for text fields, where an absent key and an empty text look alike in the struct, presence is decided here).
 func genExtEntry(k string) (interface{}, bool) {
+	if foldIdx >= 0 && foldOverrides && k == specKeys[foldIdx] {
+		// the exactly-keyed member of the field whose struct view is the case variant
+		if exactTime != nil {
+			return "time", exactPresent
+		}
+		return exactText, exactPresent
+	}
 	switch k {
 	case "alg":
 		if algInMapAsked {
@@ -163,11 +171,69 @@ func genExtEntry(k string) (interface{}, bool) {
 	for i, ek := range extKeys {
 		if rt.Same(ek, k) {
 			extFld[i].asked = true
-			extFld[i].present = rt.Choose("extra"+string(rune('0'+i))+".present", 2) == 1
+			if i == 0 && foldIdx >= 0 {
+				extFld[i].present = true // the case variant is a member of the object
+			} else {
+				extFld[i].present = rt.Choose("extra"+string(rune('0'+i))+".present", 2) == 1
+			}
 			return extVal[i], extFld[i].present
 		}
 	}
 	return nil, false
+}
+
+// ---- letter case. encoding/json matches the keys of a struct target ignoring case (an exact match is preferred for each
+// member, but every member is decoded in turn, so the last member that matches a field is what the field ends up
+// holding); a map target and golang-jwt's header lookup are exact. With foldModel on, the first further key (extra0) of
+// the JSON object may differ from one specified key only in letter case, and the struct view of that field may be
+// what that member holds (it comes after the exactly-keyed member, or there is no exactly-keyed member).
+var (
+	foldModel     bool
+	foldDecided   bool
+	foldIdx       = -1 // index into specKeys; -1: no such member
+	foldOverrides bool
+	// the exactly-keyed member of the overridden field, as a case-sensitive reader sees it
+	exactPresent bool
+	exactText    string     // alg, cty, scheme
+	exactTime    *time.Time // the three times
+)
+
+func decideFold() {
+	if foldDecided || !foldModel {
+		return
+	}
+	foldDecided = true
+	foldIdx = rt.Choose("fold.key", 1+len(specKeys)) - 1
+	if foldIdx < 0 {
+		return
+	}
+	foldOverrides = rt.Choose("fold.overrides", 2) == 1
+	if foldOverrides {
+		exactPresent = rt.Choose("fold.exact.present", 2) == 1
+		if exactPresent {
+			switch specKeys[foldIdx] {
+			case "alg", "cty", "io.cncf.notary.signingScheme":
+				exactText = rt.AtomString("fold.exact.text")
+			case "crit":
+			default:
+				t := rt.Time("fold.exact.time")
+				exactTime = &t
+			}
+		}
+	}
+}
+
+// strings.EqualFold(a, b): equal texts, or the case variant against the specified key it folds to
+func stubEqualFold(a, b string) bool {
+	if foldIdx >= 0 && len(extKeys) > 0 {
+		if (rt.Same(a, extKeys[0]) && b == specKeys[foldIdx]) || (rt.Same(b, extKeys[0]) && a == specKeys[foldIdx]) {
+			return true
+		}
+		if rt.Same(a, extKeys[0]) || rt.Same(b, extKeys[0]) {
+			return false // it differs from the other specified keys by more than case, and from further keys altogether
+		}
+	}
+	return rt.StrEq(a, b)
 }
 
 var headerPtr *jwsProtectedHeader
@@ -176,11 +242,16 @@ var algInMap, algInMapAsked bool
 
 func theHeader() *jwsProtectedHeader { return headerPtr }
 
+var extrasMax int // set by a harness to lower the bound
+
 func setupExtras() {
 	if extKeys != nil {
 		return
 	}
 	n := rt.Bound("further_headers_max", 2, 2)
+	if extrasMax > 0 && extrasMax < n {
+		n = extrasMax
+	}
 	for i := 0; i < n; i++ {
 		k := rt.AtomString("extra" + string(rune('0'+i)) + ".key")
 		for _, s := range specKeys {
@@ -199,6 +270,7 @@ func setupExtras() {
 func stubJSONUnmarshal(data []byte, v any) error {
 	switch p := v.(type) {
 	case *jwsProtectedHeader:
+		decideFold()
 		if !structDecoded {
 			structDecoded = true
 			protectedBytes = data
@@ -215,6 +287,7 @@ func stubJSONUnmarshal(data []byte, v any) error {
 		headerPtr = p
 		return nil
 	case *map[string]interface{}:
+		decideFold()
 		if !structDecoded {
 			// golang-jwt decodes the header before the repo does: fix the text the views belong to
 			structDecoded = true
@@ -234,7 +307,13 @@ func stubJSONUnmarshal(data []byte, v any) error {
 				jwtView = &jwsProtectedHeader{}
 				rt.HavocInto(jwtView, "protected")
 				jwtHeader = map[string]interface{}{}
-				if rt.Choose("alg.in.map", 2) == 1 {
+				if foldIdx == 0 && foldOverrides {
+					// golang-jwt reads the exactly-keyed member, the struct view reports the case variant
+					if exactPresent {
+						jwtHeader["alg"] = exactText
+						algInMap = true
+					}
+				} else if rt.Choose("alg.in.map", 2) == 1 {
 					jwtHeader["alg"] = jwtView.Algorithm
 					algInMap = true
 				}
